@@ -8,9 +8,16 @@
          HTTPMODS / WSMODS  comma separated module names, "-" = empty list, "default" = node.NewDefaultConfig()
          EXPOSEALL 0 | 1
        -> "fail" | "ok modules=a,b,c methods=ns_wire|recv|sub|signs,..."   (both lists sorted)
+     resolve CHAIN FLAGS TRANSPORT HTTPMODS WSMODS EXPOSEALL BATCH METHOD [FIRSTPARAM]
+         BATCH 0 | 1 (element of a JSON array); METHOD the "method" member; FIRSTPARAM the first parameter if it is a string
+       -> invalid | unsubscribe | notfound | callback ns_wire|recv|signs | subscription ns_wire|recv|signs | fail
      envbool unset | HEX        -> 0 | 1          (sense.EnvBool on that value)
      protected NAME             -> 0 | 1          (isProtectedMethodName)
-     allowed FLAGS CALLER       -> 0 | 1          (is_allowed: RegisterName's caller-name test) *)
+     allowed FLAGS CALLER       -> 0 | 1          (is_allowed: RegisterName's caller-name test)
+     regseq FLAGS CALLER API...  each API = ns:recv:M1,M2,...  (callbacks only, exported receiver)
+         -> the callbacks registered after rpc.NewServer() followed by RegisterName(ns, recv) for each API in
+            order, all called from function CALLER: "ns_wire|recv,..." sorted, the rpc metadata service left out;
+            "fail" if a RegisterName returns an error *)
 open Model
 open Vh
 
@@ -30,8 +37,32 @@ let mods_of (dflt : bytes list) (s : String.t) : bytes list =
 
 let bit b = if b then "1" else "0"
 
+let reg_cache : (String.t, registry option) Hashtbl.t = Hashtbl.create 64
+let exposed_cached chain fl tr hm wm ea =
+  let key = String.concat " " [chain; fl; tr; hm; wm; ea] in
+  match Hashtbl.find_opt reg_cache key with
+  | Some r -> r
+  | None ->
+    let apis = (match chain with "aquahash" -> gen_apis | "clique" -> gen_apis_clique | _ -> failwith "chain") in
+    let c = { c_http_modules = mods_of gen_default_config.c_http_modules hm;
+              c_ws_modules = mods_of gen_default_config.c_ws_modules wm;
+              c_ws_expose_all = (ea = "1") } in
+    let r = gen_exposed (flags_of fl) (transport_of tr) c apis in
+    Hashtbl.replace reg_cache key r; r
+
+let show_entry e = s_of_b (wire_name e) ^ "|" ^ s_of_b e.e_recv ^ "|" ^ bit e.e_signs
+
 let handle (toks : String.t list) : String.t =
   match toks with
+  | "resolve" :: chain :: fl :: tr :: hm :: wm :: ea :: batch :: meth :: rest ->
+    (match exposed_cached chain fl tr hm wm ea with
+     | None -> "fail"
+     | Some r ->
+       let fp = (match rest with [] -> None | p :: _ -> Some (b_of_s p)) in
+       (match resolve r (batch = "1") (b_of_s meth) fp with
+        | RInvalid -> "invalid" | RUnsubscribe -> "unsubscribe" | RNotFound -> "notfound"
+        | RCallback e -> "callback " ^ show_entry e
+        | RSubscription e -> "subscription " ^ show_entry e))
   | ["exposed"; chain; fl; tr; hm; wm; ea] ->
     let apis = (match chain with "aquahash" -> gen_apis | "clique" -> gen_apis_clique | _ -> failwith "chain") in
     let c = { c_http_modules = mods_of gen_default_config.c_http_modules hm;
@@ -47,6 +78,22 @@ let handle (toks : String.t list) : String.t =
   | ["envbool"; h] -> bit (env_bool (Some (bytes_of_hex h)))
   | ["protected"; n] -> bit (is_protected (b_of_s n))
   | ["protected"] -> bit (is_protected [])
+  | "regseq" :: fl :: caller :: specs ->
+    let api_of spec =
+      (match String.split_on_char ':' spec with
+       | [ns; recv; ms] ->
+         { a_ns = b_of_s ns; a_recv = b_of_s recv; a_exported = true; a_public = false;
+           a_methods = List.map (fun n -> { m_name = b_of_s n; m_sub = false; m_signs = false }) (split_on ',' ms) }
+       | _ -> failwith "regseq api") in
+    let f = flags_of fl in
+    let r0 = new_server f gen_callers.caller_newserver gen_meta_api in
+    (match register_all f (b_of_s caller) r0 (List.map api_of specs) with
+     | None -> "fail"
+     | Some r ->
+       let meta = s_of_b gen_meta_api.a_ns in
+       let ms = List.filter_map (fun e -> if s_of_b e.e_ns = meta || e.e_sub then None
+                                           else Some (s_of_b (wire_name e) ^ "|" ^ s_of_b e.e_recv)) r.r_entries in
+       String.concat "," (List.sort compare ms))
   | ["allowed"; fl; caller] -> bit (is_allowed (flags_of fl) (b_of_s caller))
   | _ -> "driver-error unknown-command"
 
